@@ -13,6 +13,11 @@ deriving DecidableEq, Repr
 inductive Services | ok | unknown | empty | duplicate
 deriving DecidableEq, Repr
 
+/-- `protocol` of a Diameter section: the runtime passes it to the dialler and otherwise ignores it; the servers
+    always listen on TCP with TLS, the clients always dial with the section's certificate and key -/
+inductive Proto | tcp | sctp | other | absent
+deriving DecidableEq, Repr
+
 /-- presence of the items a configuration variant may lack (same numbering as harness/cmd/config.go) -/
 structure Cfg where
   info : Bool
@@ -37,6 +42,9 @@ structure Cfg where
   rfTlsPem : Bool          -- rfDiameter.tls.pem is a non-empty string
   scheme : Scheme
   services : Services
+  rfProto : Proto := .tcp      -- rfDiameter.protocol
+  abmfProto : Proto := .tcp    -- abmfDiameter.protocol
+  cgfEnable : Bool := false    -- cgf.enable: the start-up opens the CGF (FTP) component
 deriving DecidableEq, Repr
 
 /-- Sbi.validate + the `valid:` tags of Sbi -/
@@ -44,9 +52,9 @@ def sbiValid (c : Cfg) : Bool :=
   (c.scheme == .http || c.scheme == .https) && c.sbiRegister && c.sbiBinding && c.sbiPort &&
   (c.sbiTls || c.scheme != .https)
 
-/-- the `valid:` tags of Diameter (tls required, its members non-empty) -/
-def rfValid (c : Cfg) : Bool := c.rfTls && c.rfTlsPem
-def abmfValid (c : Cfg) : Bool := c.abmfTls
+/-- the `valid:` tags of Diameter (protocol required; tls required — whatever the protocol —, its members non-empty) -/
+def rfValid (c : Cfg) : Bool := c.rfTls && c.rfTlsPem && c.rfProto != .absent
+def abmfValid (c : Cfg) : Bool := c.abmfTls && c.abmfProto != .absent
 
 /-- Config.Validate: accepted iff true -/
 def validate (c : Cfg) : Bool :=
@@ -64,6 +72,9 @@ def startsOK (c : Cfg) : Bool :=
   c.mongodb &&                                          -- rf/abmf OpenServer: Mongodb.Name
   c.rfTls && c.abmfTls &&                               -- OpenServer: Tls.Pem / Tls.Key
   c.cgf &&                                              -- service Start: Cgf.Enable
+  (c.cgfPortRange || !c.cgfEnable) &&                   -- cgf.OpenServer (when enabled): Cgf.PassiveTransferPortRange.Start/End;
+                                                        -- a struct value in the code at hand (Gen: kind "struct"), so the read
+                                                        -- cannot fail, but the model does not rely on that
   (c.sbiTls || c.scheme != .https)                      -- startServer: Sbi.Tls.Pem when https
 
 end Chf.Config
